@@ -76,6 +76,8 @@ type QueryObs struct {
 	Watchdog      bool             `json:"watchdog,omitempty"`
 	ContractBreak []string         `json:"contract_breaches,omitempty"`
 	Upstream      []string         `json:"upstream,omitempty"`
+	// Restart: restarts / re-entries recognised in the packet log (restart kinds)
+	Restart *RestartObs `json:"restart,omitempty"`
 
 	reply     *dns.Msg
 	edeCodes  []uint16
@@ -347,10 +349,14 @@ func (s *stackRun) ask(client string, q QuerySpec) *QueryObs {
 		}
 	}
 
+	var owned []authsim.Packet
 	for _, p := range u.Log.Since(from) {
 		p := p
 		if isMarker(&p) {
 			continue
+		}
+		if s.w.owns(p.QNameL) {
+			owned = append(owned, p)
 		}
 		if !s.w.owns(p.QNameL) {
 			// a datagram from some other process on this machine (another
@@ -378,6 +384,9 @@ func (s *stackRun) ask(client string, q QuerySpec) *QueryObs {
 	}
 
 	obs.AbandonedTC = abandonedTruncations(u.Log.Since(from))
+	if obs.Restart = s.w.restartEvidence(owned); obs.Restart != nil {
+		obs.Restart.PreReply = obs.Packets - obs.AfterReply
+	}
 
 	replies := t.Replies()
 	obs.Replies = len(replies)
@@ -416,8 +425,8 @@ func (s *stackRun) ask(client string, q QuerySpec) *QueryObs {
 		}
 	}
 	if debug {
-		fmt.Fprintf(os.Stderr, "  T%d %-14s %-8s %s -> %s ede=%v pkts=%d(tcp %d, after %d) debits=%d trees=%d exh=%v %dms q=%v\n",
-			s.w.spec.Index, s.cfg.Label, client, q, obs.outcome(), obs.EDE, obs.Packets, obs.TCPPackets, obs.AfterReply, obs.Debits, obs.Trees, obs.Exhausted, obs.ElapsedMs, obs.Quiesced)
+		fmt.Fprintf(os.Stderr, "  T%d %-14s %-8s %s -> %s ede=%v pkts=%d(tcp %d, after %d) debits=%d trees=%d exh=%v %dms q=%v budget=%d restart=%s\n",
+			s.w.spec.Index, s.cfg.Label, client, q, obs.outcome(), obs.EDE, obs.Packets, obs.TCPPackets, obs.AfterReply, obs.Debits, obs.Trees, obs.Exhausted, obs.ElapsedMs, obs.Quiesced, s.cfg.outboundBudget(), obs.Restart.String())
 		if debugPackets {
 			for _, l := range obs.Upstream {
 				fmt.Fprintln(os.Stderr, "       ", l)
